@@ -243,6 +243,9 @@ func (kr *kindRules) scan(w *World, f *ssa.Function) {
 				}
 			case want.StrKnown:
 				st, d := judgeLayout(got, want.Str)
+				if st == Undecided {
+					st = Info // unknown is silent
+				}
 				kr.add("KIND-LAYOUT", f, sub, pos, st, "returned ID: "+d)
 			case want.Elem != nil && want.Elem.StrKnown:
 				var e *AV
@@ -250,11 +253,14 @@ func (kr *kindRules) scan(w *World, f *ssa.Function) {
 					e = got.elemAny()
 				}
 				st, d := judgeLayout(e, want.Elem.Str)
+				if st == Undecided {
+					st = Info
+				}
 				kr.add("KIND-LAYOUT", f, sub, pos, st, "elements of the returned list: "+d)
 			case want.Seq != nil:
 				// positional numeric slice
 				if got == nil || got.Seq == nil || len(got.Seq) != len(want.Seq) {
-					kr.add("KIND-LAYOUT", f, sub, pos, Undecided, "positions of the returned slice could not be inferred ("+got.String()+")")
+					kr.add("KIND-LAYOUT", f, sub, pos, Info, "positions of the returned slice could not be inferred ("+got.String()+")")
 					break
 				}
 				st, d := Discharged, "positions "+got.String()
@@ -270,7 +276,7 @@ func (kr *kindRules) scan(w *World, f *ssa.Function) {
 						break
 					}
 					if !known {
-						st, d = Undecided, fmt.Sprintf("position %d has no inferred kind", i)
+						st, d = Info, fmt.Sprintf("position %d has no inferred kind", i)
 					}
 				}
 				kr.add("KIND-LAYOUT", f, sub, pos, st, "returned slice: "+d)
